@@ -56,6 +56,7 @@ type RunConfig struct {
 	BugTransportErrPct int `json:"bug_transport_err_permille"`
 	BugFSMSnapErrPct   int `json:"bug_fsm_snapshot_err_pct"`
 	BugPersistErrPct   int `json:"bug_persist_err_pct"`
+	BootSnapOpenErrPct int `json:"boot_snapshot_open_err_pct"` // start-up with two or more snapshots: the newest cannot be opened
 	FSMSlowPct         int `json:"fsm_slow_permille"`
 	NotifySlowPct      int `json:"notify_slow_pct"`
 	SnapPadMax         int `json:"snap_pad_max"`
@@ -157,6 +158,7 @@ func DrawConfig(ch *simrt.Chooser, profile string, thorough bool) *RunConfig {
 	if ch.Choose(simrt.SCfg, 4) == 0 {
 		c.Ops["transfer"] = 1
 	}
+	c.BootSnapOpenErrPct = pick(ch, 0, 0, 15, 40)
 	c.MaxSteps = 30000
 	if thorough {
 		c.MaxSteps = 120000
@@ -221,7 +223,12 @@ func applyProfile(c *RunConfig, ch *simrt.Chooser, p string) {
 		c.SnapshotInterval = time.Duration(pick(ch, 50, 100, 300)) * time.Millisecond
 		c.Faults["isolate_leader"] = 4
 		c.Faults["stall"] = 2
-		c.Faults["crash"] = 2
+		c.Faults["crash"] = 3
+		// restarts that have to fall back to an older snapshot
+		c.BootSnapOpenErrPct = pick(ch, 0, 30, 60)
+		if c.SnapRetain < 2 {
+			c.SnapRetain = 2
+		}
 		if c.FaultEvery == 0 {
 			c.FaultEvery = 1000
 		}
@@ -301,6 +308,10 @@ func applyProfile(c *RunConfig, ch *simrt.Chooser, p string) {
 			c.Ops["snapshot"] = 3
 		}
 	case "C10":
+		c.BootSnapOpenErrPct = pick(ch, 0, 30, 60)
+		if c.SnapRetain < 2 {
+			c.SnapRetain = 2
+		}
 		c.Faults["crash"] = 4
 		c.Faults["crash_at_disk_op"] = 5
 		c.Faults["crash_leader"] = 2
@@ -359,8 +370,11 @@ func applyProfile(c *RunConfig, ch *simrt.Chooser, p string) {
 	case "C20":
 		c.Ops["restore"] = 3
 		c.Ops["membership"] = 2
+		c.Ops["transfer"] = 2
 		c.Clients = rangeInt(ch, 2, 4)
-		c.Faults = map[string]int{"partition": 2, "heal": 2, "stall": 1}
+		// isolate_hot: the target of a leadership transfer is cut off right after TimeoutNow reached
+		// it, so the old leader sits in "transfer in progress" for an election time-out
+		c.Faults = map[string]int{"partition": 2, "heal": 2, "stall": 1, "isolate_hot": 2}
 		c.StoreFlavour = pick(ch, FlavourPlain, FlavourMonotonic)
 	case "C10s2":
 		// the real server of the replication sweep: small snapshot threshold and trailing logs so
@@ -396,7 +410,7 @@ func applyProfile(c *RunConfig, ch *simrt.Chooser, p string) {
 		c.Clients = rangeInt(ch, 2, 4)
 		c.ShutdownOnRemove = false
 		c.ShutdownAtEnd = true
-		c.Ops = map[string]int{"apply": 10, "barrier": 3, "verify": 8, "getconfig": 1, "snapshot": 1}
+		c.Ops = map[string]int{"apply": 10, "barrier": 3, "verify": 8, "getconfig": 1, "snapshot": 1, "restore": 1}
 		c.Faults = map[string]int{"blip_leader": 8, "partition": 1, "heal": 4}
 		c.LongDelayPct, c.SnapTruncPct = 0, 0
 		c.BugFSMSnapErrPct, c.BugPersistErrPct = 0, 0
